@@ -40,6 +40,7 @@ def handleGit (j : Json) : Except String Json := do
       let pend ← (a[2]!).getBool?
       let c := checkpointUpdate st.repo st.ck (optNat (a[1]!)) pend
       pure ({ st with ck := some c }, outs ++ [ckJson c])
+    | "update_unborn" => pure (st, outs)
     | "ckdelete" => pure ({ st with ck := none }, outs)
     | "outdelete" => pure ({ st with ck := none }, outs)
     | "show" => pure (st, outs ++ [match st.ck with | some c => ckJson c | none => Json.null])
